@@ -157,7 +157,11 @@ func (x *Exec) callExternal(call *ast.CallExpr, fn *types.Func, recv *Term, args
 	}
 	switch name {
 	case "gopkg.in/yaml.v3.(*Decoder).Decode", "github.com/knadh/koanf/v2.(*Koanf).Unmarshal", "github.com/knadh/koanf/v2.(*Koanf).UnmarshalWithConf", "gopkg.in/yaml.v3.Unmarshal":
+		// decoders write through whatever their arguments reach: site clauses see the state before that
+		x.siteObligations(call, fn, recv, args, st)
 		x.havocAll(st)
+		x.sitesDone = true
+		defer func() { x.sitesDone = false }()
 	}
 	if h, ok := specialExternals[name]; ok {
 		if name != "github.com/brunoga/deep.Copy" { // (that handler may fall back to the generic model, which checks sites itself)
@@ -496,6 +500,9 @@ func (x *Exec) siteCovered(fn *types.Func) bool {
 }
 
 func (x *Exec) siteObligations(call *ast.CallExpr, fn *types.Func, recv *Term, args []Term, st *State) {
+	if x.sitesDone {
+		return
+	}
 	if x.contract == nil || !x.top().top {
 		// site clauses talk about calls made by the function under contract itself or by helpers inlined into it
 	}
